@@ -269,14 +269,16 @@ func (repo *Repository) GetVerifyOnlyLocatorHashes(ctx context.Context) ([]bitco
 }
 
 func removeDuplicateHashes(hashes []bitcoin.Hash32) []bitcoin.Hash32 {
+	// Equal hashes are at equal heights but the sort doesn't necessarily put them next to each
+	// other when another branch has a header at the same height.
 	result := make([]bitcoin.Hash32, 0, len(hashes))
-	var previousHash bitcoin.Hash32
-	for i, hash := range hashes {
-		if i != 0 && previousHash.Equal(&hash) {
+	seen := make(map[bitcoin.Hash32]bool)
+	for _, hash := range hashes {
+		if seen[hash] {
 			continue
 		}
+		seen[hash] = true
 		result = append(result, hash)
-		previousHash = hash
 	}
 
 	return result
